@@ -25,6 +25,16 @@ from harness import lib_c05 as L
 FINDINGS_DIR = core.VERIF / "findings"
 
 
+def _trace(obj):
+    """C05_TRACE=<file>: write every value-propagation case before it runs (to find a native crash)"""
+    import os
+
+    path = os.environ.get("C05_TRACE")
+    if path:
+        with open(path, "w") as f:
+            f.write(json.dumps(obj, default=str))
+
+
 MAX_BROKEN = 40
 _suppressed = [0]
 
@@ -718,7 +728,16 @@ def run(ck: core.Check):
                 continue
             fstats["flows"] += 1
             fstats["kind:" + flow["kind"]] += 1
-            for i, op, key, what, info, call, sp in judge_flow(by_key, flow, known):
+            _trace({"flow": flow})
+            if flow["calls"][0].get("vp") == "onnxruntime":
+                got = L.isolated(lambda: judge_flow(by_key, flow, known))
+                if got is None or got[0] != "ok":
+                    fstats["onnxruntime_child_died" if got is None else "onnxruntime_child_error"] += 1
+                    continue
+                judged = got[1]
+            else:
+                judged = judge_flow(by_key, flow, known)
+            for i, op, key, what, info, call, sp in judged:
                 fstats["calls"] += 1
                 fstats[info["class"]] += 1
                 ck.count(("flow", op.key, info["class"], i, flow["kind"]))
@@ -773,8 +792,19 @@ def run(ck: core.Check):
             call = L.gen_call(rng, op, force="constfed")
             if "skip" in call:
                 continue
-            sp = L.run_spox(op, call)
-            key, what, info = judge(op, call, sp)
+            _trace({"op_key": op.key, "call": call})
+            if call.get("vp") == "onnxruntime":
+                if L.oracle_run(op, call)["reject"]:
+                    call["vp"] = "reference"  # onnxruntime is only handed nodes ONNX accepts ...
+            if call.get("vp") == "onnxruntime":
+                got = L.isolated(lambda: (lambda sp_: (sp_, judge(op, call, sp_)))(L.run_spox(op, call)))  # ... in a child
+                if got is None or got[0] != "ok":
+                    cstats["onnxruntime_child_died" if got is None else "onnxruntime_child_error"] += 1
+                    continue
+                sp, (key, what, info) = got[1]
+            else:
+                sp = L.run_spox(op, call)
+                key, what, info = judge(op, call, sp)
             cstats[call["family"] + ":" + call.get("vp", "none")] += 1
             cstats[info["class"]] += 1
             per_op[op.key]["vp:" + info["class"]] += 1
